@@ -195,6 +195,14 @@ def crafted_instances():
               {'kind': 'SpurGear', 'J': F(1, 10**5), 'teeth': 15, 'rel': {'type': 'joint', 'arg': None}}]
     for nm, chn in (('coast_zero_torque', gearpair), ('coast_zero_torque_5', coast5)):
         out.append((nm, {'elems': chn, 'load': ld(c0=0), 'ctrls': [[const(F(5, 200), F(3, 100), 0)]], 'stops': [], 'ops': sched(10, ctrl=0, more=[run2])}))
+    # optional-data subsets around the contact stress: the gear has module, face width and elastic modulus, its mate has module and
+    # elastic modulus but NO face width (legal: the gear's contact stress is computable, the mate's is not), either orientation
+    full = {'module': F(1, 1000), 'b': F(1, 100), 'E': F(21, 10) * 10**11}
+    part = {'module': F(1, 1000), 'E': F(3, 1) * 10**9}
+    for nm, da, db in (('contact_mate_without_width', full, part), ('contact_self_without_width', part, full)):
+        chn = [motor, dict({'kind': 'SpurGear', 'J': F(1, 10**6), 'teeth': 12, 'rel': {'type': 'joint', 'arg': None}}, **da),
+               dict({'kind': 'SpurGear', 'J': F(1, 10**5), 'teeth': 30, 'rel': {'type': 'gear', 'arg': F(9, 10)}}, **db)]
+        out.append((nm, {'elems': chn, 'load': ld(c0=F(1, 1000)), 'ctrls': [], 'stops': [], 'ops': sched(5, more=[run2, {'op': 'reset'}])}))
     # a friction sweep before assembly: the same worm pair declared first self-locking then free, and the other way round
     out.append(('sweep_sl_then_free', {'elems': [motor, worm, wheel_free, out_gear], 'load': ld(c0=5), 'ctrls': [], 'stops': [], 'pre_worm': {2: F(2, 5)}, 'ops': sched(6)}))
     out.append(('sweep_free_then_sl', {'elems': sl, 'load': ld(c0=5), 'ctrls': [], 'stops': [], 'pre_worm': {2: F(1, 50)}, 'ops': sched(6)}))
